@@ -95,7 +95,7 @@ func (s *State) Member(t *rapid.T, p Profile) string {
 		}
 		return shape
 	case roll < p.PInvalid+p.PUnknown:
-		m := pick(t, "umethod", []string{"nope", "nope", "rpc.x", "Ret", "svc.nope"})
+		m := pick(t, "umethod", []string{"nope", "nope", "rpc.x", "rpc.", "Ret", "svc.nope"})
 		if p.Builtins && rapid.IntRange(0, 2).Draw(t, "info") == 0 {
 			m = "rpc.serverInfo"
 		}
